@@ -71,12 +71,36 @@ func runC04(c *Ctx) {
 						hasThird = true
 					}
 				}
+				kind := classified[f.Name()]
+				name := "threshold comparison in " + fnName(f)
 				if !hasThird {
+					// the same thresholds written without the division: 3·count > 2·n, 3·count > n
+					if kind != "" && len(p.L.T) == 2 && (p.Kind == "ge" || p.Kind == "eq" || p.Kind == "ne") {
+						var c3, cN int64
+						var nAtom string
+						for a, k := range p.L.T {
+							if k == 3 || k == -3 {
+								c3 = k
+							} else {
+								cN, nAtom = k, a
+							}
+						}
+						want := int64(-2)
+						if kind == "1/3" {
+							want = -1
+						}
+						if c3 != 0 && cN != 0 {
+							nSites++
+							okForm := p.Kind == "ge" && c3 == 3 && cN == want && p.L.K == -1
+							c.check(okForm, "C04.threshold-form", name, bo.Pos(), fmt.Sprintf("3·count > %d·%s", -want, nAtom), "not the strict +"+kind+" form: "+p.String())
+							if okForm && kind == "2/3" && f.Signature.Recv() != nil && namedOf(f.Signature.Recv().Type()) == "voteSet" {
+								c.check(nAtom == "len($r.msgs)", "C04.threshold-form", name+" base", bo.Pos(), "n = number of validator slots", "threshold is relative to "+nAtom+", not to the number of validator slots len(vs.msgs)")
+							}
+						}
+					}
 					continue
 				}
 				nSites++
-				kind := classified[f.Name()]
-				name := "threshold comparison in " + fnName(f)
 				if kind == "" {
 					c.violate("C04.threshold-form", name, bo.Pos(), "unclassified comparison against ⌊·/3⌋: "+p.String()+" — every quorum site must be one of the confirmed ones")
 					continue
@@ -121,7 +145,7 @@ func runC04(c *Ctx) {
 	if f := c.mustFn(pkg, "voteSet", "hasOverTwoThirds"); f != nil {
 		for _, rs := range returnSites(f) {
 			p := predOfVal(rs.Results[0], true)
-			c.check(p.Kind == "ge" && p.L.T["$r.count"] == 1, "C04.threshold-form", "hasOverTwoThirds counts stored votes", rs.pos(), "vs.count", "compares "+p.String())
+			c.check(p.Kind == "ge" && (p.L.T["$r.count"] == 1 || p.L.T["$r.count"] == 3), "C04.threshold-form", "hasOverTwoThirds counts stored votes", rs.pos(), "vs.count", "compares "+p.String())
 		}
 	}
 
@@ -235,6 +259,93 @@ func runC04(c *Ctx) {
 		wSame("decision digest is nil", `^\$r\.getOverTwoThirdsRoundDecisionDigest\(\)#0$`, `^nil$`),
 		wDiffer("old vote is not for the +2/3 decision", `^\$r\.getOverTwoThirdsRoundDecisionDigest\(\)#0$`, `^\$r\.msgs\[\$0\]\.[a-zA-Z.]*RoundDecisionDigest\(\)$`))
 
+	// ---- nil-vs-none: consumers of the decision distinguish "+2/3 voted nil" (nil, true) from "no +2/3 decision" (nil, false)
+	nCons := 0
+	for _, f := range pf {
+		if strings.HasSuffix(c.file(f.Pos()), "_test.go") {
+			continue
+		}
+		for _, g := range c.calls(f, byCallee("voteSet).getOverTwoThirdsPartSetID")) {
+			var id, okv ssa.Value
+			if g.Instr.Value() == nil || g.Instr.Value().Referrers() == nil {
+				continue
+			}
+			for _, ref := range *g.Instr.Value().Referrers() {
+				if ex, isEx := ref.(*ssa.Extract); isEx {
+					if ex.Index == 0 {
+						id = ex
+					} else {
+						okv = ex
+					}
+				}
+			}
+			if id == nil {
+				continue
+			}
+			for _, act := range c.calls(f, func(cc *ssa.CallCommon) bool {
+				n := methodName(cc)
+				return strings.HasPrefix(n, "enter") || n == "sendVote" || n == "Zerofy" || strings.HasPrefix(n, "resetFor")
+			}) {
+				for _, alt := range altGuards(act.Instr.Block()) {
+					idNil, okTrue := false, false
+					for _, gd := range alt {
+						if bo, isB := gd.Cond.(*ssa.BinOp); isB {
+							isNil := (bo.Op == token.EQL && gd.Pol) || (bo.Op == token.NEQ && !gd.Pol)
+							if isNil && ((bo.X == id && isNilConst(bo.Y)) || (bo.Y == id && isNilConst(bo.X))) {
+								idNil = true
+							}
+						}
+						if okv != nil && gd.Cond == okv && gd.Pol {
+							okTrue = true
+						}
+					}
+					if idNil {
+						nCons++
+						c.check(okTrue, "C04.nil-vs-none", fnName(f)+": "+methodName(act.Common())+" on a nil decision ⊢ +2/3 really voted nil", act.Pos(), "ok ∧ id == nil", "`no +2/3 decision` (nil, false) is acted upon as if +2/3 had voted nil")
+					}
+				}
+			}
+		}
+	}
+	c.check(nCons >= 3, "C04.nil-vs-none", "nil-decision consumers found", token.NoPos, fmt.Sprint(nCons), fmt.Sprintf("%d consumers", nCons))
+
+	// ---- swap-remove of an emptied counter keeps every live counter
+	if add := c.mustFn(pkg, "voteSet", "add"); add != nil {
+		nTrunc := 0
+		for _, fs := range fieldStores([]*ssa.Function{add}, "voteSet", "counters") {
+			sl, isSl := fs.Store.Val.(*ssa.Slice)
+			if !isSl || sl.High == nil {
+				continue // the append of a new counter
+			}
+			nTrunc++
+			l := linOf(sl.High)
+			okLast := len(l.T) == 1 && l.T["len($r.counters)"] == 1 && l.K == -1
+			// counters[i] = counters[last] before truncating
+			okMove := false
+			for _, b := range add.Blocks {
+				for _, in := range b.Instrs {
+					st, isSt := in.(*ssa.Store)
+					if !isSt || !dominatesInstr(st, fs.Store) {
+						continue
+					}
+					dst, isIA := st.Addr.(*ssa.IndexAddr)
+					if !isIA || !strings.HasSuffix(render(dst.X), "$r.counters") {
+						continue
+					}
+					src, _ := loadOf(st.Val).(*ssa.IndexAddr)
+					if src != nil && strings.HasSuffix(render(src.X), "$r.counters") {
+						ls := linOf(src.Index)
+						if len(ls.T) == 1 && ls.T["len($r.counters)"] == 1 && ls.K == -1 {
+							okMove = true
+						}
+					}
+				}
+			}
+			c.check(okLast && okMove, "C04.bookkeeping", "an emptied counter is removed by moving the last counter into its slot, then truncating by one", fs.Store.Pos(), "counters[i] = counters[last]; counters = counters[:last]", "the counter list is truncated without moving the last counter into the freed slot: a live counter (and its votes) is dropped from the tally")
+		}
+		c.check(nTrunc == 1, "C04.bookkeeping", "counter removal site", add.Pos(), "1", fmt.Sprintf("%d truncations", nTrunc))
+	}
+
 	// ---- max-scan
 	if g := c.mustFn(pkg, "voteSet", "getOverTwoThirdsRoundDecisionDigest"); g != nil {
 		for _, st := range fieldStores([]*ssa.Function{g}, "voteSet", "maxIndex") {
@@ -261,7 +372,9 @@ func runC04(c *Ctx) {
 			if isConstBool(e.Results[2], false) {
 				continue
 			}
-			c.requireGuard("C04.max-scan", "decision reported", e.pos(), e.Guards, wGE("max > ⌊2n/3⌋", -1, t(1, `^phi\(`), t(-1, `^div\(\+2\*len\(\$r\.msgs\),3\)$`)))
+			c.requireAny("C04.max-scan", "decision reported", e.pos(), e.Guards, "max > ⌊2n/3⌋",
+				wGE("max > ⌊2n/3⌋", -1, t(1, `^phi\(`), t(-1, `^div\(\+2\*len\(\$r\.msgs\),3\)$`)),
+				wGE("3·max > 2n", -1, t(3, `^phi\(`), t(-2, `^len\(\$r\.msgs\)$`)))
 			src := render(e.Results[0])
 			if ld, ok := e.Results[0].(*ssa.UnOp); ok {
 				if fa, ok := ld.X.(*ssa.FieldAddr); ok {
